@@ -138,8 +138,8 @@ impl Property for C10 {
 
     fn runs(&self, tier: Tier) -> u64 {
         match tier {
-            Tier::Quick => 15000,
-            Tier::Thorough => 500000,
+            Tier::Quick => 40000,
+            Tier::Thorough => 1000000,
         }
     }
 
